@@ -1,32 +1,137 @@
-// C06 (round 3): constants and type widths of igris/util/printf_impl.c read out of
-// the compiled translation unit.  The file is #included (its macros live in the
-// .c file) with the one external symbol renamed; the functions below only
-// report what the preprocessor / compiler sees there.
+// C06 (round 3, made OPTIONAL in round 3b): constants and type widths of
+// igris/util/printf_impl.c read out of the compiled translation unit.  The file
+// is #included (its macros live in the .c file) with the one external symbol
+// renamed; the functions below only report what the preprocessor / compiler sees
+// there.
+//
+// Round 3b (fragility): every name used here except `__printf` (declared in the
+// public header printf_impl.h) is INTERNAL to printf_impl.c - PRINT_I_BUFF_SZ,
+// PRINT_S_NULL_STR, the OPS_* masks.  The property fixes none of them, so none
+// may break the build: each use is guarded by #ifdef and degrades to "unknown"
+// (-1 / NULL / 0) when the macro is renamed, removed, or turned into an enum or
+// a const.  What is reported goes into the TAG field of the `consts` op, not
+// into the compared result; the only judgement kept is the behavioural one
+// (a print_i buffer that is known and below 23 bytes cannot hold 22 octal
+// digits and the terminator; masks that are known must be distinct bits).
+// Should printf_impl.c ever export a second external symbol, the duplicate
+// definition is tolerated by -Wl,--allow-multiple-definition (checks/C06.json).
 #define __printf c06c___printf
 #include <igris/util/printf_impl.c>
 #undef __printf
 
-int c06c_print_i_buff_sz(void) { return PRINT_I_BUFF_SZ; }
+#ifdef PRINT_I_BUFF_SZ
+int c06c_print_i_buff_sz(void) { return (int)(PRINT_I_BUFF_SZ); }
+#else
+int c06c_print_i_buff_sz(void) { return -1; }
+#endif
+
+#ifdef PRINT_S_NULL_STR
 const char *c06c_null_str(void) { return PRINT_S_NULL_STR; }
 unsigned long c06c_null_str_size(void) { return sizeof PRINT_S_NULL_STR; }
+#else
+const char *c06c_null_str(void) { return 0; }
+unsigned long c06c_null_str_size(void) { return 0; }
+#endif
+
+// the OPS_* masks that exist as macros under the names of the original source; 0 = not known
 unsigned c06c_ops(int i)
 {
-    static const unsigned t[] = {OPS_FLAG_LEFT_ALIGN, OPS_FLAG_WITH_SIGN, OPS_FLAG_EXTRA_SPACE, OPS_FLAG_WITH_SPEC,
-                                 OPS_FLAG_ZERO_PAD,   OPS_PREC_IS_GIVEN,  OPS_LEN_MIN,          OPS_LEN_SHORT,
-                                 OPS_LEN_LONG,        OPS_LEN_LONGLONG,   OPS_LEN_MAX,          OPS_LEN_SIZE,
-                                 OPS_LEN_PTRDIFF,     OPS_LEN_LONGFP,     OPS_SPEC_UPPER_CASE,  OPS_SPEC_POINTER,
-                                 OPS_SPEC_CHAR};
+    static const unsigned t[] = {
+#ifdef OPS_FLAG_LEFT_ALIGN
+        OPS_FLAG_LEFT_ALIGN,
+#else
+        0,
+#endif
+#ifdef OPS_FLAG_WITH_SIGN
+        OPS_FLAG_WITH_SIGN,
+#else
+        0,
+#endif
+#ifdef OPS_FLAG_EXTRA_SPACE
+        OPS_FLAG_EXTRA_SPACE,
+#else
+        0,
+#endif
+#ifdef OPS_FLAG_WITH_SPEC
+        OPS_FLAG_WITH_SPEC,
+#else
+        0,
+#endif
+#ifdef OPS_FLAG_ZERO_PAD
+        OPS_FLAG_ZERO_PAD,
+#else
+        0,
+#endif
+#ifdef OPS_PREC_IS_GIVEN
+        OPS_PREC_IS_GIVEN,
+#else
+        0,
+#endif
+#ifdef OPS_LEN_MIN
+        OPS_LEN_MIN,
+#else
+        0,
+#endif
+#ifdef OPS_LEN_SHORT
+        OPS_LEN_SHORT,
+#else
+        0,
+#endif
+#ifdef OPS_LEN_LONG
+        OPS_LEN_LONG,
+#else
+        0,
+#endif
+#ifdef OPS_LEN_LONGLONG
+        OPS_LEN_LONGLONG,
+#else
+        0,
+#endif
+#ifdef OPS_LEN_MAX
+        OPS_LEN_MAX,
+#else
+        0,
+#endif
+#ifdef OPS_LEN_SIZE
+        OPS_LEN_SIZE,
+#else
+        0,
+#endif
+#ifdef OPS_LEN_PTRDIFF
+        OPS_LEN_PTRDIFF,
+#else
+        0,
+#endif
+#ifdef OPS_LEN_LONGFP
+        OPS_LEN_LONGFP,
+#else
+        0,
+#endif
+#ifdef OPS_SPEC_UPPER_CASE
+        OPS_SPEC_UPPER_CASE,
+#else
+        0,
+#endif
+#ifdef OPS_SPEC_POINTER
+        OPS_SPEC_POINTER,
+#else
+        0,
+#endif
+#ifdef OPS_SPEC_CHAR
+        OPS_SPEC_CHAR,
+#else
+        0,
+#endif
+    };
     return i >= 0 && i < (int)(sizeof t / sizeof t[0]) ? t[i] : 0;
 }
-// `sizeof tmp.vp * 2` of case 'p'
-int c06c_ptr_digits(void) { return (int)(sizeof(void *) * 2); }
-// the type `pc` is returned in
+// the type `pc` is returned in (public signature, printf_impl.h)
 unsigned long c06c_sizeof_ret(void)
 {
     va_list *ap = 0;
     return sizeof(c06c___printf(0, 0, 0, *ap));
 }
-// sizeof of the types case 'n' stores through: hh h l ll j z t (none)
+// sizeof of the types ISO names for `%n` with hh h l ll j z t (none) - platform facts, not taken from the code
 unsigned long c06c_n_size(int i)
 {
     static const unsigned long t[] = {sizeof(signed char), sizeof(short int), sizeof(long int), sizeof(long long int),
